@@ -158,6 +158,17 @@ CHECKS = {
             "For MISC results only 'last observation wins' (value, lists) is required; chunks are non-empty.",
             "reference-model comparison (single accumulation) over generated partitions/merge trees + operand-snapshot monitor",
             "DESIGN.md §5 C06"),
+    "C17": ("exploration",
+            "Generated parameter dictionaries (python and numpy scalars of every width, flat/nested lists, sets, 0-3-D real arrays incl. "
+            "empty shapes, narrow dtypes and non-contiguous views, any subset of iterables marked unpacked, unpacked children) and result "
+            "sets (all types x accumulation x 0-10 updates, repetition counts) are pushed through every round trip: JSON string, JSON "
+            "file, pickle file, extension-less and templated file names, parameter pickle files, Result to_json/to_dict.  Each loaded "
+            "object is compared with the original by the classes' own == (which must not raise) and by an independent by-value "
+            "canonical form (strict types for pickle), then saved and loaded again; file names must equal the replaced template, be "
+            "deterministic and distinct for distinct scalar values.",
+            "By-value semantics for JSON (a float32 may come back as a Python float with the same number); lists containing arrays and tuples are not generated.",
+            "round-trip oracle with independent canonical-form comparison over generated objects",
+            "DESIGN.md §5 C17"),
 }
 
 PENDING_REASON = "check not built yet in this session (design in DESIGN.md §5); will be claimed once its monitors run clean on the unchanged tree"
